@@ -56,6 +56,19 @@ PidConfig field names, mju_clip, and the mjpPlugin callback slots):
                 aliases.  Bounds that differ and are both exact are a VIOLATION (a rotation angle in between yields a
                 non-zero stress in the stress-free configuration); bounds that differ but are inexact, or an operand
                 that cannot be bounded, are ANALYSIS-ERROR.
+  R-STATELESS   force-producing callbacks (compute, actuator_act_dot; found from RegisterPlugin) and the methods of the
+                plugin class they reach: every read of an element of a data member that this closure also writes is
+                dominated, in the same call, by a write of the same element (same member, same index as a linear form
+                with single-assignment locals substituted and hoisted pointers followed; out-parameters of callees count
+                as writes, const parameters as reads, accumulating engine calls as both), on the straight-line path of
+                the same loop iteration or earlier in the function.  An undominated read is stale — VIOLATION
+                `<plugin>:<method>:<member>:read-before-write` — when every write of the member in the closure provably
+                cannot have produced the element yet in this call: same index but on another branch / after the read,
+                or, in a counted loop, an index that a LATER iteration writes (distance bounded from the literal value
+                sets of int members such as next[] and the guards of the read).  A write whose relation to the read is
+                not decided (earlier loop, other function, smaller index = possible recurrence, unresolved pointer) is
+                ANALYSIS-ERROR.  Members no force callback writes (configuration, constructor-filled tables) and reads
+                in other callbacks (visualize) are free.
 The setpoint functions of R-MUSTPASS are found by role (Pid methods that read State.previous_ctrl and return a value); a
 procedure that reads it (the act_dot callback forming the slew state's derivative) is not one.
 Not decided: the arithmetic of the PID law; that the two curvature maps are the same map beyond their norm bound (zero
@@ -3355,6 +3368,850 @@ def bounds_rule(res, cable, repo):
 
 
 # ---------------------------------------------------------------------------------------------------------------
+# R-STATELESS: the force-producing callbacks compute a function of the configuration
+#
+# A data member of the plugin object that a force-producing callback (compute, actuator_act_dot) writes is scratch
+# storage of that call.  If the same closure reads an element of such a member that no write of the *same call* has
+# produced yet, the value read is the one the previous call left behind: the force then depends on the call history
+# (mjData's plugin_state / act are the documented state; members are not).  Demanded: every read of an element of a
+# member the closure writes is dominated, in the same call, by a write of the same element — same member, same index
+# (linear form with single-assignment locals substituted; pointers hoisted into locals are followed), on the
+# straight-line path of the same loop iteration or earlier in the function.  A read that is not so dominated is examined
+# against every write of that member in the closure: a write in the same loop whose element lies, for an ascending loop,
+# at a larger index (or on another branch / after the read at the same index) cannot have happened yet in this call ->
+# the read is stale -> VIOLATION; a write whose relation to the read cannot be decided (earlier loop, other function,
+# smaller index, unresolved pointer) -> ANALYSIS-ERROR.
+
+FORCE_SLOTS = ("compute", "actuator_act_dot")
+_ACCUM = re.compile(r"(addTo|subFrom|AddTo|SubFrom|normalize)")
+_ALL = ("*",)
+
+
+class _MemberAccess:
+    def __init__(self, kind, member, key, style, node, fk, seq, loops, guards, covered=None):
+        self.kind, self.member, self.key, self.style, self.node, self.fk = kind, member, key, style, node, fk
+        self.seq, self.loops, self.guards, self.covered = seq, loops, guards, covered
+
+
+def _lf_key(form):
+    return None if form is None else frozenset(form.items())
+
+
+class _Stateless:
+    """Member accesses of one function in evaluation order, with the set of elements certainly written so far."""
+
+    def __init__(self, tu, f):
+        self.tu, self.f = tu, f
+        self.acc = []
+        self.seq = 0
+        self.loops = []
+        self.guards = []
+        self.atom_nodes = {}
+        self.problems = []
+        # single-assignment integer locals with a pure initialiser: substituted into index forms
+        assigned = {}
+        for x in cir.walk(f.node):
+            k = x.get("k")
+            if (k == "BinaryOperator" and x.get("op") == "=") or k == "CompoundAssignOperator" or \
+                    (k == "UnaryOperator" and x.get("op") in ("++", "--")):
+                l = cir.strip(cir.kids(x)[0])
+                if l is not None and l.get("k") == "DeclRefExpr":
+                    assigned[(l.get("ref") or {}).get("id")] = True
+        self.defs = {}
+        self.ptr_defs = {}
+        for x in cir.walk(f.node):
+            if x.get("k") == "VarDecl" and x.get("id") and x["id"] not in assigned:
+                init = [c for c in cir.kids(x) if c is not None and not (c.get("k") or "").endswith("Attr")]
+                if not init:
+                    continue
+                t = x.get("t") or ""
+                if "*" in t:
+                    self.ptr_defs[x["id"]] = init[-1]
+                elif _is_int_t(t) and not any(cir.is_call(y) and y.get("k") != "CXXOperatorCallExpr" for y in cir.walk(init[-1])):
+                    self.defs[x["id"]] = init[-1]
+        self.reassigned_ptrs = {vid for vid in assigned}
+
+    # ---- index forms
+    def lin(self, e, depth=0):
+        s = cir.strip(e)
+        if s is None:
+            return None
+        k = s.get("k")
+        if k == "IntegerLiteral":
+            try:
+                v = int(str(s.get("v")), 0)
+            except ValueError:
+                return None
+            return {"1": v} if v else {}
+        if k == "DeclRefExpr":
+            r = s.get("ref") or {}
+            if r.get("id") in self.defs and depth < 6:
+                return self.lin(self.defs[r["id"]], depth + 1)
+            a = f"{r.get('n')}#{r.get('id')}"
+            self.atom_nodes[a] = s
+            return {a: 1}
+        if k == "UnaryOperator" and s.get("op") in ("-", "+"):
+            f_ = self.lin(cir.kids(s)[0], depth)
+            if f_ is None:
+                return None
+            return f_ if s["op"] == "+" else {t: -c for t, c in f_.items()}
+        if k == "BinaryOperator" and s.get("op") in ("+", "-"):
+            a, b = self.lin(cir.kids(s)[0], depth), self.lin(cir.kids(s)[1], depth)
+            if a is None or b is None:
+                return None
+            return _lin_add(a, b, 1 if s["op"] == "+" else -1)
+        if k == "BinaryOperator" and s.get("op") == "*":
+            a, b = self.lin(cir.kids(s)[0], depth), self.lin(cir.kids(s)[1], depth)
+            if a is None or b is None:
+                return None
+            for x, y in ((a, b), (b, a)):
+                if set(x) <= {"1"}:
+                    c = x.get("1", 0)
+                    return {t: c * v for t, v in y.items() if c * v}
+        ids = sorted({(y.get("ref") or {}).get("id") or "" for y in cir.walk(s) if y.get("k") == "DeclRefExpr" and
+                      (y.get("ref") or {}).get("k") in ("VarDecl", "ParmVarDecl")})
+        a = f"{cir.text(s)}@{','.join(ids)}"
+        self.atom_nodes[a] = s
+        return {a: 1}
+
+    # ---- what an expression designates inside a member
+    def ref(self, e, depth=0):
+        """(member, offset form | None, style) with style 'whole' | 'block' | 'elem'; 'unknown' for a pointer whose
+        target cannot be resolved but may be a member; None when the expression has nothing to do with a member."""
+        s = cir.strip(e)
+        if s is None or depth > 8:
+            return None
+        k = s.get("k")
+        if k == "MemberExpr":
+            b = cir.strip(cir.kids(s)[0]) if cir.kids(s) else None
+            if b is not None and b.get("k") == "CXXThisExpr" and not (s.get("t") or "").startswith("<bound"):
+                return (s.get("n"), {}, "whole")
+            return None
+        if k == "CXXOperatorCallExpr":
+            c = cir.kids(s)
+            fn = cir.strip(c[0]) if c else None
+            if fn is not None and (fn.get("ref") or {}).get("n") == "operator[]" and len(c) >= 3:
+                r = self.ref(c[1], depth + 1)
+                if r and r != "unknown" and r[2] in ("whole", "block"):
+                    return (r[0], _lin_add(r[1], self.lin(c[2]), 1) if self.lin(c[2]) is not None and r[1] is not None else None,
+                            "elem")
+            return None
+        if k == "ArraySubscriptExpr":
+            r = self.ref(cir.kids(s)[0], depth + 1)
+            if r == "unknown":
+                return r
+            if r and r[2] in ("whole", "block"):
+                i = self.lin(cir.kids(s)[1])
+                return (r[0], _lin_add(r[1], i, 1) if i is not None and r[1] is not None else None, "elem")
+            return None
+        if k == "CXXMemberCallExpr":
+            fn = cir.strip(cir.kids(s)[0])
+            if fn is not None and fn.get("k") == "MemberExpr" and fn.get("n") in ("data", "begin") and cir.kids(fn):
+                r = self.ref(cir.kids(fn)[0], depth + 1)
+                if r and r != "unknown" and r[2] == "whole":
+                    return (r[0], {}, "block")
+            return None
+        if k == "BinaryOperator" and s.get("op") in ("+", "-") and "*" in (s.get("t") or ""):
+            a, b = cir.kids(s)
+            pa = "*" in ((cir.strip(a) or {}).get("t") or "") or "[" in ((cir.strip(a) or {}).get("t") or "")
+            p_, o = (a, b) if pa else (b, a)
+            r = self.ref(p_, depth + 1)
+            if r == "unknown":
+                return r
+            if r and r[2] in ("whole", "block"):
+                i = self.lin(o)
+                sign = 1 if (s["op"] == "+") else -1
+                return (r[0], _lin_add(r[1], i, sign) if i is not None and r[1] is not None else None, "block")
+            return None
+        if k == "UnaryOperator" and s.get("op") == "&":
+            r = self.ref(cir.kids(s)[0], depth + 1)
+            if r and r != "unknown" and r[2] in ("elem", "whole"):
+                return (r[0], r[1], "block")
+            return r if r == "unknown" else None
+        if k == "UnaryOperator" and s.get("op") == "*":
+            r = self.ref(cir.kids(s)[0], depth + 1)
+            if r and r != "unknown" and r[2] == "block":
+                return (r[0], r[1], "elem")
+            return r if r == "unknown" else None
+        if k == "DeclRefExpr":
+            r = s.get("ref") or {}
+            if r.get("k") == "VarDecl" and "*" in (r.get("t") or ""):
+                if r.get("id") in self.ptr_defs:
+                    return self.ref(self.ptr_defs[r["id"]], depth + 1)
+                # a pointer that is re-pointed: does any of its definitions point into a member?
+                for x in cir.walk(self.f.node):
+                    src = None
+                    if x.get("k") == "VarDecl" and x.get("id") == r.get("id"):
+                        init = [c for c in cir.kids(x) if c is not None]
+                        src = init[-1] if init else None
+                    elif x.get("k") == "BinaryOperator" and x.get("op") == "=" and \
+                            _var_id(cir.kids(x)[0]) == r.get("id"):
+                        src = cir.kids(x)[1]
+                    if src is not None and any(y.get("k") == "CXXThisExpr" for y in cir.walk(src)):
+                        return "unknown"
+            return None
+        if k == "ConditionalOperator":
+            if any(y.get("k") == "CXXThisExpr" for y in cir.walk(s)) and "*" in (s.get("t") or ""):
+                return "unknown"
+        return None
+
+    # ---- events
+    def _emit(self, kind, r, node, W):
+        member, form, style = r
+        key = _lf_key(form) if style != "whole" else (_ALL if kind == "write" else frozenset())
+        if style == "whole" and kind == "read":
+            key = frozenset()
+        covered = None
+        if kind == "read":
+            covered = (member, key) in W or (member, _ALL) in W or \
+                (style == "whole" and (member, frozenset()) in W)
+        self.seq += 1
+        self.acc.append(_MemberAccess(kind, member, key, style, node, self.f.key, self.seq, tuple(self.loops),
+                                      tuple(self.guards), covered))
+        if kind == "write":
+            W.add((member, key))
+            if style == "whole":
+                W.add((member, frozenset()))
+
+    def _kill(self, vid, W):
+        tag = f"#{vid}"
+        for item in list(W):
+            if item[1] not in (_ALL,) and any(tag in a or (("@" in a) and vid in a.split("@", 1)[1].split(",")) for a, _c in item[1]):
+                W.discard(item)
+
+    def _param_mode(self, call, i):
+        """'in' | 'out' | 'inout' for argument i of a call that receives a pointer into a member."""
+        ce = cir.callee_expr(call)
+        name = cir.callee(call)
+        pts = modref._param_types((ce.get("ref") or {}).get("t") if ce is not None and ce.get("k") == "DeclRefExpr" else None)
+        if i < len(pts) and modref._const_pointee(pts[i]):
+            return "in"
+        info = cxx3.callee_info(call)
+        tg = [g for g in (self.tu.resolver.targets(info, self.tu.rel, cxx3.call_nargs(call)) if info else [])
+              if g.file == self.tu.rel and cir.body(g.node) is not None]
+        if not tg:
+            if i >= len(pts):
+                return "inout"
+            return "inout" if _ACCUM.search(name or "") else "out"
+        modes = set()
+        for g in tg:
+            ps = cir.params(g.node)
+            if i >= len(ps):
+                return "inout"
+            pid_ = ps[i].get("id")
+            sub = _Stateless(self.tu, g)
+            reads = writes = 0
+            uses = [y for y in cir.walk(cir.body(g.node)) if y.get("k") == "DeclRefExpr" and (y.get("ref") or {}).get("id") == pid_]
+            accounted = set()
+            for c2 in cir.calls(cir.body(g.node)):
+                for j, a in enumerate(cir.args(c2)):
+                    sa = cir.strip(a)
+                    if sa is not None and sa.get("k") == "DeclRefExpr" and (sa.get("ref") or {}).get("id") == pid_:
+                        accounted.add(id(sa))
+                        m2 = sub._param_mode(c2, j)
+                        reads += m2 in ("in", "inout")
+                        writes += m2 in ("out", "inout")
+            for y in cir.walk(cir.body(g.node)):
+                if y.get("k") == "BinaryOperator" and y.get("op") == "=":
+                    l = cir.strip(cir.kids(y)[0])
+                    if l is not None and l.get("k") == "ArraySubscriptExpr" and _var_id(cir.kids(l)[0]) == pid_:
+                        accounted.add(id(cir.strip(cir.kids(l)[0])))
+                        writes += 1
+            if len(accounted) < len(uses):
+                reads += 1
+            modes.add("inout" if reads and writes else ("out" if writes else "in"))
+        return modes.pop() if len(modes) == 1 else "inout"
+
+    def expr(self, e, W, lvalue=False):
+        s = cir.strip(e)
+        if s is None:
+            return
+        k = s.get("k")
+        if k == "LambdaExpr":
+            return
+        if k == "BinaryOperator" and s.get("op") == "=":
+            a, b = cir.kids(s)
+            self.expr(b, W)
+            r = self.ref(a)
+            if r == "unknown":
+                self.problems.append((s.get("line"), "a value is stored through a pointer whose target (possibly a member) "
+                                                     "could not be resolved"))
+            elif r:
+                self._index_reads(a, W)
+                self._emit("write", r, s, W)
+            else:
+                l = cir.strip(a)
+                if l is not None and l.get("k") == "DeclRefExpr":
+                    self._kill((l.get("ref") or {}).get("id"), W)
+                else:
+                    self.expr(a, W)
+            return
+        if k == "CompoundAssignOperator" or (k == "UnaryOperator" and s.get("op") in ("++", "--")):
+            a = cir.kids(s)[0]
+            if k == "CompoundAssignOperator":
+                self.expr(cir.kids(s)[1], W)
+            r = self.ref(a)
+            if r and r != "unknown":
+                self._index_reads(a, W)
+                self._emit("read", r, s, W)
+                self._emit("write", r, s, W)
+            else:
+                l = cir.strip(a)
+                if l is not None and l.get("k") == "DeclRefExpr":
+                    self._kill((l.get("ref") or {}).get("id"), W)
+                else:
+                    self.expr(a, W)
+            return
+        if cir.is_call(s):
+            self._call(s, W)
+            return
+        r = self.ref(s)
+        if r == "unknown":
+            return
+        if r:
+            if r[2] == "block" or (r[2] == "whole" and ("*" in (s.get("t") or "") or "vector" in (s.get("t") or "")
+                                                      or "[" in (s.get("t") or ""))):
+                return      # an address / the container itself: no element is read here
+            self._index_reads(s, W)
+            self._emit("read", r, s, W)
+            return
+        if k == "ConditionalOperator":
+            c, a, b = cir.kids(s)
+            self.expr(c, W)
+            W1, W2 = set(W), set(W)
+            self.guards.append((c, True))
+            self.expr(a, W1)
+            self.guards[-1] = (c, False)
+            self.expr(b, W2)
+            self.guards.pop()
+            return
+        if k == "BinaryOperator" and s.get("op") in ("&&", "||"):
+            a, b = cir.kids(s)
+            self.expr(a, W)
+            self.expr(b, set(W))
+            return
+        for x in cir.kids(s):
+            if x is not None and x.get("k") != "CompoundStmt":
+                self.expr(x, W)
+
+    def _index_reads(self, e, W):
+        """Reads inside the index expressions of a member reference."""
+        s = cir.strip(e)
+        if s is None:
+            return
+        k = s.get("k")
+        if k == "ArraySubscriptExpr":
+            self._index_reads(cir.kids(s)[0], W)
+            self.expr(cir.kids(s)[1], W)
+        elif k == "CXXOperatorCallExpr" and len(cir.kids(s)) >= 3:
+            self._index_reads(cir.kids(s)[1], W)
+            self.expr(cir.kids(s)[2], W)
+        elif k == "BinaryOperator":
+            for x in cir.kids(s):
+                if "*" in ((cir.strip(x) or {}).get("t") or ""):
+                    self._index_reads(x, W)
+                else:
+                    self.expr(x, W)
+        elif k == "UnaryOperator":
+            self._index_reads(cir.kids(s)[0], W)
+
+    def _call(self, s, W):
+        c = cir.kids(s)
+        fn = cir.strip(c[0]) if c else None
+        # methods of a container member: (re)fill = write of everything; size()/data()/... touch no element
+        if s.get("k") == "CXXMemberCallExpr" and fn is not None and fn.get("k") == "MemberExpr" and cir.kids(fn):
+            r = self.ref(cir.kids(fn)[0])
+            if r and r != "unknown" and r[2] == "whole":
+                for a in c[1:]:
+                    self.expr(a, W)
+                m = fn.get("n")
+                if m in ("assign", "resize", "clear", "fill"):
+                    self._emit("write", (r[0], {}, "whole"), s, W)
+                elif m in ("push_back", "emplace_back", "insert", "erase", "pop_back", "swap"):
+                    self._emit("read", (r[0], {}, "whole"), s, W)
+                    self._emit("write", (r[0], {}, "whole"), s, W)
+                elif m in ("at", "front", "back"):
+                    self.problems.append((s.get("line"), f"element access {r[0]}.{m}() is not interpreted"))
+                return
+        args = cir.args(s)
+        if s.get("k") == "CXXOperatorCallExpr":
+            r = self.ref(s)
+            if r and r != "unknown":
+                self._index_reads(s, W)
+                self._emit("read", r, s, W)
+                return
+        pend = []
+        for i, a in enumerate(args):
+            r = self.ref(a)
+            t = (cir.strip(a) or {}).get("t") or ""
+            if r == "unknown":
+                self.problems.append((s.get("line"), f"a pointer whose target (possibly a member) could not be resolved is "
+                                                     f"handed to {cir.callee(s)}()"))
+                continue
+            if r and ("*" in t or "[" in t) and r[2] in ("block", "whole"):
+                self._index_reads(a, W)
+                mode = self._param_mode(s, i)
+                blk = (r[0], r[1], "block")
+                if mode in ("in", "inout"):
+                    self._emit("read", blk, s, W)
+                if mode in ("out", "inout"):
+                    pend.append(blk)
+            elif r and r[2] == "whole" and not _is_int_t(t) and not _is_flt_t(t):
+                # the member object itself handed over (by reference): read (and possibly written) as a whole
+                self._emit("read", (r[0], {}, "whole"), s, W)
+            else:
+                self.expr(a, W)
+        if fn is not None and fn.get("k") == "MemberExpr" and cir.kids(fn):
+            self.expr(cir.kids(fn)[0], W)
+        for blk in pend:
+            self._emit("write", blk, s, W)
+        # a method of the plugin class called from here: its own direct member writes are writes at unknown elements
+        info = cxx3.callee_info(s)
+        for g in (self.tu.resolver.targets(info, self.tu.rel, cxx3.call_nargs(s)) if info else []):
+            if g.file == self.tu.rel and g.qual and cir.body(g.node) is not None and g.node is not self.f.node:
+                self.acc.append(_MemberAccess("call", g.key, None, None, s, self.f.key, self.seq, tuple(self.loops),
+                                              tuple(self.guards)))
+
+    # ---- statements: returns True when control does not continue after the statement
+    def stmt(self, n, W):
+        if n is None:
+            return False
+        k = n.get("k")
+        if k == "CompoundStmt":
+            g0 = len(self.guards)
+            try:
+                for st in cir.kids(n):
+                    if self.stmt(st, W):
+                        return True
+                return False
+            finally:
+                del self.guards[g0:]        # guards contributed by early exits hold to the end of their block only
+        if k == "DeclStmt":
+            for v in cir.kids(n):
+                if v is not None and v.get("k") == "VarDecl":
+                    for c in cir.kids(v):
+                        if c is not None and not (c.get("k") or "").endswith("Attr"):
+                            if v.get("id") in self.ptr_defs and self.ref(c) not in (None,):
+                                self._index_reads(c, W)
+                            else:
+                                self.expr(c, W)
+            return False
+        if k == "IfStmt":
+            c = list(cir.kids(n))
+            idx = (1 if n.get("hasInit") else 0) + (1 if n.get("hasVar") else 0)
+            for pre in c[:idx]:
+                self.stmt(pre, W)
+            cond = c[idx]
+            self.expr(cond, W)
+            W1, W2 = set(W), set(W)
+            self.guards.append((cond, True))
+            t1 = self.stmt(c[idx + 1], W1) if len(c) > idx + 1 else False
+            self.guards[-1] = (cond, False)
+            t2 = self.stmt(c[idx + 2], W2) if len(c) > idx + 2 and c[idx + 2] is not None else False
+            self.guards.pop()
+            if t1 and t2:
+                return True
+            new = W2 if t1 else (W1 if t2 else (W1 & W2))
+            W.clear()
+            W |= new
+            if t1 or t2:
+                # what follows runs only when the other branch was taken: its condition guards the rest of the block
+                self.guards.append((cond, bool(t2)))
+            return False
+        if k in ("ForStmt", "WhileStmt", "DoStmt", "CXXForRangeStmt"):
+            c = list(cir.kids(n))
+            if k == "ForStmt":
+                c = c + [None] * 5
+                if c[0] is not None:
+                    self.stmt(c[0], W)
+                parts = [c[2], c[4], c[3]]
+            elif k == "WhileStmt":
+                parts = [c[0] if len(c) > 1 else None, c[-1], None]
+            elif k == "DoStmt":
+                parts = [None, c[0], c[1] if len(c) > 1 else None]
+            else:
+                for pre in c[:-1]:
+                    if pre is not None and pre.get("k") == "DeclStmt" and any(
+                            (v.get("n") or "").startswith("__range") for v in cir.kids(pre) if v is not None):
+                        self.stmt(pre, W)
+                parts = [None, c[-1], None]
+            for x in cir.walk(n):
+                kk = x.get("k")
+                if (kk == "BinaryOperator" and x.get("op") == "=") or kk == "CompoundAssignOperator" or \
+                        (kk == "UnaryOperator" and x.get("op") in ("++", "--")):
+                    l = cir.strip(cir.kids(x)[0])
+                    if l is not None and l.get("k") == "DeclRefExpr":
+                        self._kill((l.get("ref") or {}).get("id"), W)
+            Wb = set(W)
+            self.loops.append(n)
+            depth_g = len(self.guards)
+            if parts[0] is not None:
+                self.expr(parts[0], Wb)
+            body = parts[1]
+            if body is not None:
+                self.stmt(body, Wb)
+            if parts[2] is not None:
+                self.expr(parts[2], Wb)
+            del self.guards[depth_g:]
+            self.loops.pop()
+            return False
+        if k == "SwitchStmt":
+            c = [x for x in cir.kids(n) if x is not None]
+            self.expr(c[0], W)
+            Ws = set(W)
+            self._switch_body(c[-1], Ws)
+            return False
+        if k in ("CaseStmt", "DefaultStmt"):
+            c = [x for x in cir.kids(n) if x is not None]
+            return self.stmt(c[-1], W) if c else False
+        if k == "ReturnStmt":
+            for x in cir.kids(n):
+                if x is not None:
+                    self.expr(x, W)
+            return True
+        if k in ("BreakStmt", "ContinueStmt"):
+            return True
+        if k in ("NullStmt",):
+            return False
+        if k in ("AttributedStmt", "LabelStmt", "CXXTryStmt"):
+            c = [x for x in cir.kids(n) if x is not None]
+            return self.stmt(c[0] if k == "CXXTryStmt" else c[-1], W) if c else False
+        self.expr(n, W)
+        if cir.is_call(n) and cir.callee(n) in ("mju_error", "mju_error_i", "mju_error_s", "abort", "exit"):
+            return True
+        return False
+
+    def _switch_body(self, body, W):
+        # every case starts from the state before the switch; nothing written inside counts afterwards
+        for st in (cir.kids(body) if body.get("k") == "CompoundStmt" else [body]):
+            if st is None:
+                continue
+            self.stmt(st, set(W))
+
+    def run(self):
+        body = cir.body(self.f.node) if self.f.node.get("k") != "CompoundStmt" else self.f.node
+        g0 = len(self.guards)
+        self.stmt(body, set())
+        del self.guards[g0:]
+        return self
+
+
+def _lin_add(a, b, k=1):
+    if a is None or b is None:
+        return None
+    out = dict(a)
+    for t, c in b.items():
+        out[t] = out.get(t, 0) + k * c
+        if out[t] == 0:
+            del out[t]
+    return out
+
+
+def _loop_var_dir(loop):
+    """(decl id, +1 | -1) of a counted loop, else None."""
+    k = loop.get("k")
+    if k == "ForStmt":
+        c = list(cir.kids(loop)) + [None] * 5
+        inc = cir.strip(c[3]) if c[3] is not None else None
+        steps = [inc] if inc is not None else []
+        scope = c[4]
+    elif k == "WhileStmt":
+        c = list(cir.kids(loop))
+        scope = c[-1]
+        cond_vars = {(y.get("ref") or {}).get("id") for y in cir.walk(c[0]) if y.get("k") == "DeclRefExpr"} if len(c) > 1 else set()
+        steps = [y for y in cir.walk(scope) if
+                 ((y.get("k") == "UnaryOperator" and y.get("op") in ("++", "--")) or y.get("k") == "CompoundAssignOperator")
+                 and _var_id(cir.kids(y)[0]) in cond_vars]
+        if len(steps) != 1:
+            return None
+    else:
+        return None
+    if len(steps) != 1:
+        return None
+    st = steps[0]
+    vid = _var_id(cir.kids(st)[0])
+    if vid is None:
+        return None
+    if st.get("k") == "UnaryOperator":
+        d = 1 if st.get("op") == "++" else (-1 if st.get("op") == "--" else 0)
+    elif st.get("k") == "CompoundAssignOperator" and st.get("op") in ("+=", "-="):
+        v = cir.strip(cir.kids(st)[1])
+        if v is None or v.get("k") != "IntegerLiteral":
+            return None
+        d = (1 if int(str(v.get("v")), 0) > 0 else -1) * (1 if st["op"] == "+=" else -1)
+    else:
+        return None
+    # the variable must not be changed anywhere else in the loop
+    others = [y for y in cir.walk(loop) if y is not st and
+              ((y.get("k") == "BinaryOperator" and y.get("op") == "=") or y.get("k") == "CompoundAssignOperator" or
+               (y.get("k") == "UnaryOperator" and y.get("op") in ("++", "--"))) and _var_id(cir.kids(y)[0]) == vid]
+    if k == "ForStmt" and cir.kids(loop) and cir.kids(loop)[0] is not None:
+        others = [y for y in others if not any(z is y for z in cir.walk(cir.kids(loop)[0]))]
+    return (vid, d) if d and not others else None
+
+
+def _int_member_values(tu, member, closure_written):
+    """The set of integer values the elements of an int member can hold: all its writers in the TU store literals."""
+    if member in closure_written:
+        return None
+    vals = set()
+
+    def lits(e):
+        s = cir.strip(e)
+        if s is None:
+            return None
+        if s.get("k") == "IntegerLiteral":
+            return {int(str(s.get("v")), 0)}
+        if s.get("k") == "UnaryOperator" and s.get("op") in ("-", "+"):
+            v = lits(cir.kids(s)[0])
+            return None if v is None else ({-x for x in v} if s["op"] == "-" else v)
+        if s.get("k") == "ConditionalOperator":
+            a, b = lits(cir.kids(s)[1]), lits(cir.kids(s)[2])
+            return None if a is None or b is None else a | b
+        return None
+    found = False
+    for f in tu.fns():
+        sub = _Stateless(tu, f)
+        for x in cir.walk(f.node):
+            if x.get("k") == "BinaryOperator" and x.get("op") == "=":
+                r = sub.ref(cir.kids(x)[0])
+                if r and r != "unknown" and r[0] == member:
+                    v = lits(cir.kids(x)[1])
+                    if v is None:
+                        return None
+                    vals |= v
+                    found = True
+            elif x.get("k") == "CompoundAssignOperator" or (x.get("k") == "UnaryOperator" and x.get("op") in ("++", "--")):
+                r = sub.ref(cir.kids(x)[0])
+                if r and r != "unknown" and r[0] == member:
+                    return None
+            elif x.get("k") == "CXXMemberCallExpr":
+                fn = cir.strip(cir.kids(x)[0])
+                if fn is not None and fn.get("k") == "MemberExpr" and cir.kids(fn):
+                    r = sub.ref(cir.kids(fn)[0])
+                    if r and r != "unknown" and r[0] == member and r[2] == "whole":
+                        if fn.get("n") in ("assign", "resize"):
+                            a = cir.args(x)
+                            v = lits(a[1]) if len(a) > 1 else {0}
+                            if v is None:
+                                return None
+                            vals |= v
+                            found = True
+                        elif fn.get("n") not in ("data", "size", "begin", "end", "empty"):
+                            return None
+            elif cir.is_call(x):
+                for a in cir.args(x):
+                    r = sub.ref(a)
+                    if r and r != "unknown" and r[0] == member and "*" in ((cir.strip(a) or {}).get("t") or ""):
+                        return None
+    return vals if found else None
+
+
+def stateless_rule(res, tus):
+    res.rule("R-STATELESS", "force-producing callbacks (compute, actuator_act_dot): every element of a plugin data member "
+             "the callback closure writes is written, in the same call, before the closure reads it (same member, same "
+             "index, on the straight-line path of the loop iteration or earlier) — no value of a previous call reaches the "
+             "force", floor=1)
+    nobl = 0
+    for plugin, cls in (("pid", "Pid"), ("cable", "Cable")):
+        tu = tus[plugin]
+        cbs = _callbacks(tu, tu.fn(cls, "RegisterPlugin"))
+        for slot in FORCE_SLOTS:
+            if slot not in cbs:
+                continue
+            kind, node, line = cbs[slot]
+            if kind != "lambda":
+                raise AnalysisError(f"{plugin}:{slot}: the force callback is not a lambda of RegisterPlugin (not interpreted)")
+            # the closure: functions of the TU reachable from the lambda
+            fns, todo, seen = [], [node], set()
+            while todo:
+                x = todo.pop()
+                if id(x) in seen:
+                    continue
+                seen.add(id(x))
+                for call in cir.calls(x):
+                    info = cxx3.callee_info(call)
+                    for g in (tu.resolver.targets(info, tu.rel, cxx3.call_nargs(call)) if info else []):
+                        if g.file == tu.rel and cir.body(g.node) is not None and id(g.node) not in seen:
+                            fns.append(g)
+                            todo.append(g.node)
+            uniq = {}
+            for g in fns:
+                uniq.setdefault(id(g.node), g)
+            runs = [_Stateless(tu, g).run() for g in uniq.values() if g.qual == cls]
+            for r in runs:
+                if r.problems:
+                    ln, msg = r.problems[0]
+                    raise AnalysisError(f"{plugin}:{slot}: {r.f.key} (line {ln}): {msg}")
+            acc = [a for r in runs for a in r.acc]
+            written = {a.member for a in acc if a.kind == "write"}
+            by_run = {r.f.key: r for r in runs}
+            for member in sorted(written):
+                reads = [a for a in acc if a.kind == "read" and a.member == member]
+                writes = [a for a in acc if a.kind == "write" and a.member == member]
+                groups = {}
+                for a in reads:
+                    groups.setdefault(a.fk, []).append(a)
+                for fk, rs in sorted(groups.items()):
+                    nobl += 1
+                    fname = fk.split("::")[-1]
+                    c = f"{plugin}:{fname}:{member}:read-before-write"
+                    stale = None
+                    for rd in rs:
+                        if rd.covered:
+                            continue
+                        why = _stale_or_undecided(tu, by_run[fk], rd, writes, acc, written)
+                        stale = stale or (rd, why)
+                    if stale is None:
+                        res.ok("R-STATELESS", c, {"reads": len(rs), "writes": len(writes)})
+                    else:
+                        rd, why = stale
+                        res.bad("R-STATELESS", c, tu.rel, rd.node.get("line"),
+                                f"{fk} (callback `{slot}`) reads {_acc_text(rd)} before this call has written it: {why} — the "
+                                f"value is the one the previous call left in the member, so the force depends on the call "
+                                f"history, not only on the configuration")
+    if not nobl:
+        raise AnalysisError("no force-producing callback writes and reads a data member of its plugin (anchor moved: "
+                            "Cable::Compute keeps the joint stress in a member)")
+    res.count("member_scratch_obligations", nobl)
+
+
+def _acc_text(a):
+    if a.style == "whole" or a.key in (None, _ALL) or a.key == frozenset():
+        return f"member `{a.member}`" + (" (element index not evaluated)" if a.key is None else "")
+    form = dict(a.key)
+    txt = " + ".join((t.split("#")[0].split("@")[0] if c == 1 else f"{c}*{t.split('#')[0].split('@')[0]}") if t != "1" else str(c)
+                     for t, c in sorted(form.items())) or "0"
+    return f"`{a.member}` at offset {txt}"
+
+
+def _stale_or_undecided(tu, run, rd, writes, acc, written):
+    """For a read that no write of the same call dominates: the reason it is certainly stale (str), or AnalysisError
+    when some write of the closure may have produced the element earlier in this call."""
+    if rd.key is None:
+        raise AnalysisError(f"{rd.fk} (line {rd.node.get('line')}): member `{rd.member}` is read at an index that could not be "
+                            f"evaluated")
+    for a in acc:
+        if a.kind == "call" and any(w.fk == a.member for w in writes) and a.fk == rd.fk:
+            raise AnalysisError(f"{rd.fk}: member `{rd.member}` is also written inside {a.member}, called from here — the "
+                                f"order of that write and the read at line {rd.node.get('line')} is not evaluated")
+    reasons = []
+    for w in writes:
+        if w.fk != rd.fk:
+            raise AnalysisError(f"{rd.fk}: member `{rd.member}` is read at line {rd.node.get('line')} and written in {w.fk}: the "
+                                f"order of the two functions inside the callback is not evaluated")
+        common = None
+        for la, lb in zip(rd.loops, w.loops):
+            if la is lb:
+                common = la
+            else:
+                break
+        if w.key is None:
+            raise AnalysisError(f"{rd.fk}: member `{rd.member}` is written at line {w.node.get('line')} at an index that could "
+                                f"not be evaluated")
+        if w.key == _ALL or rd.key == frozenset() or w.style == "whole" or rd.style == "whole":
+            delta = {}
+        else:
+            delta = _lin_add(dict(rd.key), dict(w.key), -1)
+        if common is None:
+            if w.seq > rd.seq:
+                continue                                    # written later in the call
+            if delta and set(delta) <= {"1"} and w.style == rd.style and not w.loops and not rd.loops:
+                continue                                    # another element, constant distance
+            if not delta and not w.loops:
+                reasons.append(f"the write at line {w.node.get('line')} is on another branch")
+                continue
+            raise AnalysisError(f"{rd.fk}: member `{rd.member}` is written at line {w.node.get('line')} (before the read at "
+                                f"line {rd.node.get('line')}, in another loop or at an index whose relation to the read's "
+                                f"cannot be decided) — cannot decide whether that write produced the element read")
+        lv = _loop_var_dir(common)
+        if not delta:
+            reasons.append(f"the only write of that element in the loop (line {w.node.get('line')}) "
+                           f"{'comes after the read' if w.seq > rd.seq else 'is on another branch'}")
+            continue
+        if w.style != rd.style:
+            raise AnalysisError(f"{rd.fk}: member `{rd.member}` is written as a {w.style} (line {w.node.get('line')}) and read as "
+                                f"a {rd.style} (line {rd.node.get('line')}) at different offsets — extents not evaluated")
+        if lv is None:
+            raise AnalysisError(f"{rd.fk}: the loop around lines {w.node.get('line')}/{rd.node.get('line')} is not a counted loop: "
+                                f"cannot decide which iteration writes the element of `{rd.member}` that is read")
+        vid, direction = lv
+        wform = dict(w.key)
+        rform = dict(rd.key)
+        batoms = [t for t in set(wform) | set(rform) if t.endswith(f"#{vid}")]
+        cb_w = sum(wform.get(t, 0) for t in batoms)
+        cb_r = sum(rform.get(t, 0) for t in batoms)
+        others = [t for t in set(wform) | set(rform) if t not in batoms and f"{vid}" in t.split("@")[-1].split(",")
+                  and "@" in t and t not in delta]
+        if cb_w != cb_r:
+            raise AnalysisError(f"{rd.fk}: `{rd.member}` is written and read at indices that advance differently with the loop "
+                                f"variable (lines {w.node.get('line')}/{rd.node.get('line')})")
+        if cb_w == 0 and not others:
+            continue        # different elements, both independent of the iteration
+        lo, hi = _delta_range(tu, run, delta, rd, written)
+        if lo is None:
+            raise AnalysisError(f"{rd.fk}: the distance between the element of `{rd.member}` read at line "
+                                f"{rd.node.get('line')} and the one written at line {w.node.get('line')} could not be "
+                                f"bounded")
+        # earlier iterations wrote w.key(b') with direction*(b' - b) < 0; they cover the read iff cb*(b'-b) == delta
+        s = cb_w * direction
+        if (s > 0 and lo > 0) or (s < 0 and hi < 0):
+            reasons.append(f"its write (line {w.node.get('line')}) happens in a later iteration of the loop (the element "
+                           f"read lies {lo if lo == hi else f'{lo}..{hi}'} {'ahead of' if s > 0 else 'behind'} the one written in this "
+                           f"iteration)")
+            continue
+        raise AnalysisError(f"{rd.fk}: the element of `{rd.member}` read at line {rd.node.get('line')} may have been written by an "
+                            f"earlier iteration (line {w.node.get('line')}): a recurrence over the member is not evaluated")
+    return "; ".join(dict.fromkeys(reasons)) or "no write of this call precedes it"
+
+
+def _delta_range(tu, run, delta, rd, written):
+    """Integer range of a linear form whose atoms are elements of int members with literal value sets (guards of the
+    read that test such an element for zero are applied)."""
+    lo = hi = delta.get("1", 0)
+    for atom, coef in delta.items():
+        if atom == "1":
+            continue
+        node = run.atom_nodes.get(atom)
+        r = run.ref(node) if node is not None else None
+        if not r or r == "unknown":
+            return None, None
+        vals = _int_member_values(tu, r[0], written)
+        if not vals:
+            return None, None
+        vals = set(vals)
+        txt = cir.text(cir.strip(node))
+        for cond, pol in rd.guards:
+            for g, p in _cond_atoms(cond, pol):
+                if cir.text(cir.strip(g)) == txt:
+                    vals -= ({0} if p else (vals - {0}))
+        if not vals:
+            return None, None
+        a, b = min(vals) * coef, max(vals) * coef
+        lo, hi = lo + min(a, b), hi + max(a, b)
+    return lo, hi
+
+
+def _cond_atoms(cond, pol):
+    s = cir.strip(cond)
+    if s is None:
+        return []
+    if s.get("k") == "UnaryOperator" and s.get("op") == "!":
+        return _cond_atoms(cir.kids(s)[0], not pol)
+    if s.get("k") == "BinaryOperator" and s.get("op") == "&&" and pol:
+        return _cond_atoms(cir.kids(s)[0], True) + _cond_atoms(cir.kids(s)[1], True)
+    if s.get("k") == "BinaryOperator" and s.get("op") == "||" and not pol:
+        return _cond_atoms(cir.kids(s)[0], False) + _cond_atoms(cir.kids(s)[1], False)
+    if s.get("k") == "BinaryOperator" and s.get("op") in ("!=", "==") :
+        a, b = (cir.strip(x) for x in cir.kids(s))
+        for x, y in ((a, b), (b, a)):
+            if y is not None and y.get("k") == "IntegerLiteral" and int(str(y.get("v")), 0) == 0:
+                return [(x, pol if s["op"] == "!=" else not pol)]
+        return []
+    return [(s, pol)]
+
+
+# ---------------------------------------------------------------------------------------------------------------
 
 
 def run(res, tier):
@@ -3368,6 +4225,7 @@ def run(res, tier):
     who_writes_rule(res, tus)
     indexdim_rule(res, tus, repo)
     bounds_rule(res, tus["cable"], repo)
+    stateless_rule(res, tus)
     res.explanation = (
         "Static analysis of the PID and cable plugins from clang's typed AST. R-MUSTPASS: all-paths exploration (throw/"
         "return end a path) of the canonical view of each method (TU helper functions and lambdas expanded in place) "
@@ -3389,7 +4247,10 @@ def run(res, tier):
                        "user_model.cc)",
                        "leaf summaries of NormInterp: mju_normalize3 leaves a unit vector and returns a norm >= 0, "
                        "mju_scl3 scales the norm by |scl|, atan2(y >= 0, x) lies in [0, pi], mju_zero3 / mju_copy3",
-                       "config_.X and the attribute PidConfig::FromModel stores into X are the same configuration value"]
+                       "config_.X and the attribute PidConfig::FromModel stores into X are the same configuration value",
+                       "R-STATELESS: a non-const pointer parameter that a callee only hands on to writers / assigns is an "
+                       "out-parameter that the callee fills completely; blocks passed by pointer at different offsets "
+                       "do not overlap"]
 
 
 # ---------------------------------------------------------------------------------------------------------------
@@ -3656,6 +4517,52 @@ MUTANTS += [
                (CABLE_TU, _QUAT2VEL,
                 "  mjtNum omega[3] = {quat[1], quat[2], quat[3]};\n  mjtNum sin_a_2 = mju_normalize3(omega);\n"
                 "  mju_scl3(omega, omega, 2 * mju_atan2(sin_a_2, quat[0]));\n")]},
+]
+
+
+# ---- R-STATELESS: scratch members of the force callbacks
+PID_H = "plugin/actuator/pid.h"
+_PREV_BLOCK = ("      LocalStress(stress.data() + 3 * b, stiffness.data() + 4 * b, quat,\n"
+               "                  omega0.data() + 3 * b, true);\n"
+               "      mju_addToScl3(lfrc, stress.data() + 3 * b, 1.0);\n")
+_NEXT_BLOCK = ("      LocalStress(stress.data() + 3 * bn, stiffness.data() + 4 * bn, quat,\n"
+               "                  omega0.data() + 3 * bn);\n"
+               "      mju_addToScl3(lfrc, stress.data() + 3 * bn, -1.0);\n")
+MUTANTS += [
+    # the stored seed C51-cable-lagged-joint-stress: the joint stress is evaluated once, in the child's iteration; the
+    # parent's (earlier) iteration reads what the previous call left in the member
+    {"id": "cable-lagged-joint-stress", "group": "P", "expect": ("R-STATELESS", "cable:Compute:stress:read-before-write"),
+     "edits": [(CABLE_TU, _PREV_BLOCK,
+                "      LocalStress(stress.data() + 3 * b, stiffness.data() + 4 * b, quat,\n"
+                "                  omega0.data() + 3 * b);\n"
+                "      mjtNum invquat[4], pulled[3];\n      mju_negQuat(invquat, quat);\n"
+                "      mju_rotVecQuat(pulled, stress.data() + 3 * b, invquat);\n"
+                "      mju_addToScl3(lfrc, pulled, 1.0);\n"),
+               (CABLE_TU, _NEXT_BLOCK, "      mju_addToScl3(lfrc, stress.data() + 3 * bn, -1.0);\n")]},
+    # PID: the previous error cached in a member, read at the start of an actuator's turn and written at its end
+    {"id": "pid-error-cached-in-member", "group": "P", "expect": ("R-STATELESS", "pid:ActDot:last_error_:read-before-write"),
+     "edits": [(PID_H, "  std::vector<int> actuators_;\n", "  std::vector<int> actuators_;\n  mutable mjtNum last_error_ = 0;\n"),
+               (PID_TU, "    mjtNum error = ctrl - d->actuator_length[m->actuator_outadr[actuator_idx]];\n\n    int state_idx",
+                "    mjtNum error = ctrl - d->actuator_length[m->actuator_outadr[actuator_idx]];\n"
+                "    error = 0.5 * (error + last_error_);\n    last_error_ = error;\n\n    int state_idx")]},
+    # the contribution of the next joint is accumulated before LocalStress has evaluated it
+    {"id": "cable-stress-read-before-evaluated", "group": "Q", "expect": ("R-STATELESS", "cable:Compute:stress:read-before-write"),
+     "edits": [(CABLE_TU, _NEXT_BLOCK,
+                "      mju_addToScl3(lfrc, stress.data() + 3 * bn, -1.0);\n"
+                "      LocalStress(stress.data() + 3 * bn, stiffness.data() + 4 * bn, quat,\n"
+                "                  omega0.data() + 3 * bn);\n")]},
+    # controls: the element pointer hoisted into a local (written and read through it); a local temporary that is copied
+    # into the member afterwards
+    {"id": "cable-stress-pointer-hoisted", "group": "L", "expect": None,
+     "edits": [(CABLE_TU, _PREV_BLOCK,
+                "      mjtNum* s = stress.data() + 3 * b;\n"
+                "      LocalStress(s, stiffness.data() + 4 * b, quat, omega0.data() + 3 * b, true);\n"
+                "      mju_addToScl3(lfrc, s, 1.0);\n")]},
+    {"id": "cable-stress-through-local-temporary", "group": "L", "expect": None,
+     "edits": [(CABLE_TU, _NEXT_BLOCK,
+                "      mjtNum next_stress[3];\n"
+                "      LocalStress(next_stress, stiffness.data() + 4 * bn, quat, omega0.data() + 3 * bn);\n"
+                "      mju_addToScl3(lfrc, next_stress, -1.0);\n      mju_copy3(stress.data() + 3 * bn, next_stress);\n")]},
 ]
 
 
